@@ -797,7 +797,7 @@ def check_C14(tier, rng, rep):
     for un in (["U2cross", "U2comb", "U3hole"] if quick else U2 + U3):
         rep.add_tlc("PlaneThm/" + un, models.plane_thm(un, ["ThmXings", "ThmParity"]))
     jobs = []
-    reals = POLY + CURVED + ["poly-frac-dense", "poly-frac-big", "sim-far6-float", "sim-km-float"] + ([] if quick else ["quad-frac"])
+    reals = POLY + CURVED + ["poly-frac-dense", "poly-frac-big", "sim-far6-float", "sim-km-float"]   # quad-frac: exact Newton iterations on curved rational segments take > 30 min for a handful of pairs (II.10)
     for un in U2 + U3:
         rows = [r for r in models.pair_rows(un) if r["op"] == "or" and r["cls"] == "T" and r["a"] not in (0,) and r["b"] not in (0,) and (r["xing"] or r["a"] == r["b"])]
         rows = runner.sample(rows, 36 if quick else len(rows), rng)
